@@ -71,6 +71,10 @@ func TestRace(t *testing.T) {
 		"match (n) where n.OBJECTID = 'S-1' and n.NAME = 'a' return n",
 		"match (a {objectId: 'S-2'})-[r]->(b {nAmE: 'q'}) return a, r, b",
 		"match (s {Objectid: 'S-3'})-[:EdgeKind2*0..]->(m)-[:EdgeKind1]->(d {SYSTEM_TAGS: 'x'}) return s, d",
+		// string literals with escape sequences: whatever decodes them must not share a buffer between calls
+		`match (n) where n.name = 'it\'s a \\\\ path\nsecond\tline' return n`,
+		`match (n {name: 'a\\b', other: "q\"uoted\r"}) where n.path starts with 'C:\\Users\\' return n.name + '\\' + 'x'`,
+		"match (n) where n.description = '" + strings.Repeat(`abc\\def\'ghi\n`, 40) + "' return n",
 	}, queries...)
 	t0 := time.Now()
 	translations, mismatches, n := 0, 0, 0
